@@ -93,7 +93,7 @@ PROPS = {
     ),
     "C10": dict(
         title="Blacklisting refunds in full and excludes; un-blacklisting restores",
-        lean=["LP.Props.C10"],
+        lean=["LP.Props.C10", "LP.Props.C10frame"],
         profiles=[("life", ALL_VARIANTS), ("reserve", GUAR)],
         R={"st": [(BL_EPS, None), ({"confirm"}, ["blacklist"])], "xf": {"blacklist", "refundUsers"}},
         D={k: BL_EPS for k in ["addr.bl", "addr.conf", "addr.uts", "addr.bluts", "wl", "tg", "nrw", "payers",
@@ -161,14 +161,14 @@ PROPS = {
     ),
     "C19": dict(
         title="Pause",
-        lean=["LP.Props.C19"],
+        lean=["LP.Props.C19", "LP.Props.C19frame"],
         profiles=[("life", ALL_VARIANTS), ("vest", ["guarV2"])],
         R={"st": [(ANY, PAUSE_MSGS), ({"pause", "unpause"}, None)]},
         D={"paused": ANY},
     ),
     "C20": dict(
         title="Events",
-        lean=["LP.Props.C20"],
+        lean=["LP.Props.C20", "LP.Props.C20frame"],
         profiles=[("life", ALL_VARIANTS), ("chunks", ALL_VARIANTS)],
         R={"ev": ANY},
         D={},
